@@ -1,1 +1,427 @@
-//! verification hooks used by the check of property C10
+//! verification hooks used by the check of property C10 (and other checks that need the untyped AST)
+//!
+//! `tokenizer`, `parser` and `ast` are crate-private, so everything crosses the boundary as plain text:
+//! * `tokens(code)`       token kinds + lexemes, or the name of the tokenizer error
+//! * `parse_sexpr(code)`  canonical S-expression of the untyped AST of a whole input, or the parse errors
+//! * `is_xid_start/continue`, `is_identifier_start/continue` character classes as the tokenizer sees them
+//!
+//! Text conventions: identifiers are written as they are (they cannot contain blanks or parentheses);
+//! every other string (string literal parts, format specifiers, decorator arguments) is written as its
+//! code points in hex joined by `.` (`_` for the empty string); numbers are the 16 hex digits of the f64.
+
+use crate::ast::{
+    DefineVariable, Expression, Statement, StringPart, TypeAnnotation, TypeExpression,
+    TypeParameterBound, UnaryOperator,
+};
+use crate::decorator::Decorator;
+use crate::parser::{ParseError, ParseErrorKind};
+use crate::prefix_parser::AcceptsPrefix;
+use crate::tokenizer::{TokenKind, TokenizerErrorKind};
+
+/// variant name of a `Debug`-printed enum value (payload cut off)
+fn variant_name(dbg: String) -> String {
+    let end = dbg
+        .find(|c: char| !(c.is_alphanumeric() || c == '_'))
+        .unwrap_or(dbg.len());
+    dbg[..end].to_string()
+}
+
+pub fn tokenizer_error_name(kind: &TokenizerErrorKind) -> String {
+    variant_name(format!("{kind:?}"))
+}
+
+pub fn parse_error_name(kind: &ParseErrorKind) -> String {
+    match kind {
+        ParseErrorKind::TokenizerError(k) => format!("TokenizerError:{}", tokenizer_error_name(k)),
+        other => variant_name(format!("{other:?}")),
+    }
+}
+
+pub fn token_kind_name(kind: TokenKind) -> String {
+    match kind {
+        TokenKind::IntegerWithBase(b) => format!("IntegerWithBase{b}"),
+        other => format!("{other:?}"),
+    }
+}
+
+/// code points in hex joined by `.`; `_` for the empty string
+pub fn hex_text(s: &str) -> String {
+    if s.is_empty() {
+        return "_".to_string();
+    }
+    s.chars()
+        .map(|c| format!("{:x}", c as u32))
+        .collect::<Vec<_>>()
+        .join(".")
+}
+
+/// Token stream of `code` (including the final `Eof`) as `(kind, lexeme)`, or the tokenizer error's name.
+pub fn tokens(code: &str) -> Result<Vec<(String, String)>, String> {
+    match crate::tokenizer::tokenize(code, 0) {
+        Ok(ts) => Ok(ts
+            .iter()
+            .map(|t| (token_kind_name(t.kind), t.lexeme.to_string()))
+            .collect()),
+        Err(e) => Err(tokenizer_error_name(&e.kind)),
+    }
+}
+
+pub fn is_xid_start(c: char) -> bool {
+    unicode_ident::is_xid_start(c)
+}
+
+pub fn is_xid_continue(c: char) -> bool {
+    unicode_ident::is_xid_continue(c)
+}
+
+/// `(is_identifier_start(c), is_identifier_continue(c))` exactly as numbat's tokenizer decides them
+pub fn identifier_char_class(c: char) -> (bool, bool) {
+    crate::tokenizer::verif_identifier_char_class(c)
+}
+
+/// Result of parsing a whole input.
+#[derive(Debug, Clone, PartialEq)]
+pub enum Parsed {
+    /// all statements, each as a canonical S-expression
+    Ok(Vec<String>),
+    /// statements that were parsed before/between errors, and the names of all errors in order
+    Err(Vec<String>, Vec<String>),
+}
+
+/// Parse `code` with numbat's real parser and print the untyped AST canonically.
+pub fn parse(code: &str) -> Parsed {
+    match crate::parser::parse(code, 0) {
+        Ok(stmts) => Parsed::Ok(stmts.iter().map(statement).collect()),
+        Err((stmts, errs)) => Parsed::Err(
+            stmts.iter().map(statement).collect(),
+            errs.iter()
+                .map(|e: &ParseError| parse_error_name(&e.kind))
+                .collect(),
+        ),
+    }
+}
+
+/// `ok <stmt> <stmt> …` or `err <ErrorName> <ErrorName> …`
+pub fn parse_sexpr(code: &str) -> String {
+    match parse(code) {
+        Parsed::Ok(stmts) => format!("ok {}", stmts.join(" ")),
+        Parsed::Err(_, errs) => format!("err {}", errs.join(" ")),
+    }
+}
+
+fn number_bits(n: crate::number::Number) -> String {
+    format!("{:016x}", n.to_f64().to_bits())
+}
+
+pub fn expression(e: &Expression) -> String {
+    match e {
+        Expression::Scalar(_, n) => format!("(scalar {})", number_bits(*n)),
+        Expression::Identifier(_, name) => format!("(id {name})"),
+        Expression::UnitIdentifier {
+            prefix,
+            name,
+            full_name,
+            ..
+        } => format!("(unitid {prefix:?} {name} {full_name})").replace(' ', "_"),
+        Expression::TypedHole(_) => "(hole)".to_string(),
+        Expression::UnaryOperator { op, expr, .. } => match op {
+            UnaryOperator::Factorial(n) => format!("(fact {} {})", n.get(), expression(expr)),
+            UnaryOperator::Negate => format!("(neg {})", expression(expr)),
+            UnaryOperator::LogicalNeg => format!("(not {})", expression(expr)),
+        },
+        Expression::BinaryOperator {
+            op,
+            lhs,
+            rhs,
+            span_op,
+        } => format!(
+            "({:?}{} {} {})",
+            op,
+            if span_op.is_none() { "~" } else { "" },
+            expression(lhs),
+            expression(rhs)
+        ),
+        Expression::FunctionCall { callable, args, .. } => {
+            let mut s = format!("(call {}", expression(callable));
+            for a in args {
+                s.push(' ');
+                s.push_str(&expression(a));
+            }
+            s.push(')');
+            s
+        }
+        Expression::Boolean(_, b) => format!("(bool {b})"),
+        Expression::String(_, parts) => {
+            let mut s = "(str".to_string();
+            for p in parts {
+                s.push(' ');
+                match p {
+                    StringPart::Fixed(t) => s.push_str(&format!("(fixed {})", hex_text(t))),
+                    StringPart::Interpolation {
+                        expr,
+                        format_specifiers,
+                        ..
+                    } => s.push_str(&format!(
+                        "(interp {} {})",
+                        expression(expr),
+                        match format_specifiers {
+                            Some(f) => hex_text(f),
+                            None => "-".to_string(),
+                        }
+                    )),
+                }
+            }
+            s.push(')');
+            s
+        }
+        Expression::Condition {
+            condition,
+            then_expr,
+            else_expr,
+            ..
+        } => format!(
+            "(if {} {} {})",
+            expression(condition),
+            expression(then_expr),
+            expression(else_expr)
+        ),
+        Expression::InstantiateStruct { name, fields, .. } => {
+            let mut s = format!("(struct {name}");
+            for (_, f, e) in fields {
+                s.push_str(&format!(" ({f} {})", expression(e)));
+            }
+            s.push(')');
+            s
+        }
+        Expression::AccessField {
+            expr, field_name, ..
+        } => format!("(field {} {field_name})", expression(expr)),
+        Expression::List(_, es) => {
+            let mut s = "(list".to_string();
+            for e in es {
+                s.push(' ');
+                s.push_str(&expression(e));
+            }
+            s.push(')');
+            s
+        }
+    }
+}
+
+pub fn type_expression(t: &TypeExpression) -> String {
+    match t {
+        TypeExpression::Unity(_) => "(unity)".to_string(),
+        TypeExpression::TypeIdentifier(_, name, args) => {
+            let mut s = format!("(tid {name}");
+            for a in args {
+                s.push(' ');
+                s.push_str(&type_annotation(a));
+            }
+            s.push(')');
+            s
+        }
+        TypeExpression::Multiply(_, l, r) => {
+            format!("(tmul {} {})", type_expression(l), type_expression(r))
+        }
+        TypeExpression::Divide(_, l, r) => {
+            format!("(tdiv {} {})", type_expression(l), type_expression(r))
+        }
+        TypeExpression::Power(op_span, base, _, exp) => format!(
+            "(tpow{} {} {}/{})",
+            if op_span.is_none() { "~" } else { "" },
+            type_expression(base),
+            exp.numer(),
+            exp.denom()
+        ),
+    }
+}
+
+pub fn type_annotation(t: &TypeAnnotation) -> String {
+    match t {
+        TypeAnnotation::TypeExpression(d) => type_expression(d),
+        TypeAnnotation::Bool(_) => "(tbool)".to_string(),
+        TypeAnnotation::String(_) => "(tstring)".to_string(),
+        TypeAnnotation::DateTime(_) => "(tdatetime)".to_string(),
+        TypeAnnotation::Fn(_, params, ret) => {
+            let mut s = "(tfn (".to_string();
+            s.push_str(
+                &params
+                    .iter()
+                    .map(type_annotation)
+                    .collect::<Vec<_>>()
+                    .join(" "),
+            );
+            s.push_str(&format!(") {})", type_annotation(ret)));
+            s
+        }
+        TypeAnnotation::List(_, el) => format!("(tlist {})", type_annotation(el)),
+    }
+}
+
+fn opt_annotation(t: &Option<TypeAnnotation>) -> String {
+    match t {
+        Some(t) => type_annotation(t),
+        None => "-".to_string(),
+    }
+}
+
+fn accepts_prefix(a: &Option<AcceptsPrefix>) -> &'static str {
+    match a {
+        None => "-",
+        Some(AcceptsPrefix {
+            short: true,
+            long: true,
+        }) => "both",
+        Some(AcceptsPrefix {
+            short: true,
+            long: false,
+        }) => "short",
+        Some(AcceptsPrefix {
+            short: false,
+            long: true,
+        }) => "long",
+        Some(AcceptsPrefix {
+            short: false,
+            long: false,
+        }) => "none",
+    }
+}
+
+pub fn decorator(d: &Decorator) -> String {
+    match d {
+        Decorator::MetricPrefixes => "(metric_prefixes)".to_string(),
+        Decorator::BinaryPrefixes => "(binary_prefixes)".to_string(),
+        Decorator::Abbreviation => "(abbreviation)".to_string(),
+        Decorator::Aliases(list) => {
+            let mut s = "(aliases".to_string();
+            for (name, ap, _) in list {
+                s.push_str(&format!(" ({name} {})", accepts_prefix(ap)));
+            }
+            s.push(')');
+            s
+        }
+        Decorator::Url(u) => format!("(url {})", hex_text(u)),
+        Decorator::Name(n) => format!("(name {})", hex_text(n)),
+        Decorator::Description(t) => format!("(description {})", hex_text(t)),
+        Decorator::Example(code, descr) => format!(
+            "(example {} {})",
+            hex_text(code),
+            match descr {
+                Some(t) => hex_text(t),
+                None => "-".to_string(),
+            }
+        ),
+    }
+}
+
+fn decorators(ds: &[Decorator]) -> String {
+    format!(
+        "(decorators{})",
+        ds.iter().map(|d| format!(" {}", decorator(d))).collect::<String>()
+    )
+}
+
+fn type_parameters(ps: &[(crate::span::Span, &str, Option<TypeParameterBound>)]) -> String {
+    format!(
+        "(tparams{})",
+        ps.iter()
+            .map(|(_, name, bound)| match bound {
+                Some(TypeParameterBound::Dim) => format!(" ({name} Dim)"),
+                None => format!(" ({name} -)"),
+            })
+            .collect::<String>()
+    )
+}
+
+fn define_variable(d: &DefineVariable) -> String {
+    format!(
+        "(let {} {} {} {})",
+        d.identifier,
+        opt_annotation(&d.type_annotation),
+        expression(&d.expr),
+        decorators(&d.decorators)
+    )
+}
+
+pub fn statement(s: &Statement) -> String {
+    match s {
+        Statement::Expression(e) => format!("(expr {})", expression(e)),
+        Statement::DefineVariable(d) => define_variable(d),
+        Statement::DefineFunction {
+            function_name,
+            type_parameters: tps,
+            parameters,
+            body,
+            local_variables,
+            return_type_annotation,
+            decorators: ds,
+            ..
+        } => format!(
+            "(fn {} {} (params{}) {} {} (where{}) {})",
+            function_name,
+            type_parameters(tps),
+            parameters
+                .iter()
+                .map(|(_, name, t)| format!(" ({name} {})", opt_annotation(t)))
+                .collect::<String>(),
+            opt_annotation(return_type_annotation),
+            match body {
+                Some(b) => expression(b),
+                None => "-".to_string(),
+            },
+            local_variables
+                .iter()
+                .map(|d| format!(" {}", define_variable(d)))
+                .collect::<String>(),
+            decorators(ds)
+        ),
+        Statement::DefineDimension(_, name, exprs) => format!(
+            "(dimension {name}{})",
+            exprs
+                .iter()
+                .map(|t| format!(" {}", type_expression(t)))
+                .collect::<String>()
+        ),
+        Statement::DefineBaseUnit(_, name, t, ds) => format!(
+            "(baseunit {name} {} {})",
+            match t {
+                Some(t) => type_expression(t),
+                None => "-".to_string(),
+            },
+            decorators(ds)
+        ),
+        Statement::DefineDerivedUnit {
+            identifier,
+            expr,
+            type_annotation: t,
+            decorators: ds,
+            ..
+        } => format!(
+            "(unit {identifier} {} {} {})",
+            opt_annotation(t),
+            expression(expr),
+            decorators(ds)
+        ),
+        Statement::ProcedureCall(_, kind, args) => format!(
+            "(proc {}{})",
+            kind.name(),
+            args.iter()
+                .map(|a| format!(" {}", expression(a)))
+                .collect::<String>()
+        ),
+        Statement::ModuleImport(_, path) => format!("(use {})", path.0.join("::")),
+        Statement::DefineStruct {
+            struct_name,
+            type_parameters: tps,
+            fields,
+            ..
+        } => format!(
+            "(defstruct {struct_name} {}{})",
+            type_parameters(tps),
+            fields
+                .iter()
+                .map(|(_, name, t)| format!(" ({name} {})", type_annotation(t)))
+                .collect::<String>()
+        ),
+    }
+}
